@@ -7,11 +7,57 @@ use std::collections::{BTreeMap, BTreeSet};
 use proptest::strategy::{Strategy, ValueTree};
 use proptest::test_runner::{Config, RngAlgorithm, TestRng, TestRunner};
 use vcommon::*;
-use zcash_address::{testing::arb_address, ZcashAddress};
+use zcash_address::{testing::arb_address, unified::{self, Encoding as _, Receiver}, ConversionError, ToAddress as _, TryFromAddress, ZcashAddress};
 use zcash_protocol::{consensus::NetworkType, memo::MemoBytes, value::Zatoshis};
 use zip321::{memo_from_base64, memo_to_base64, testing::arb_zip321_request, Payment, PaymentError, TransactionRequest, Zip321Error};
 
 const MAX_MONEY: u64 = 21_000_000 * 100_000_000;
+
+// ---- address shapes ------------------------------------------------------------------------------
+// The model computes can_receive_memo / is_transparent_only itself from the shape of an address
+// (kind; for a unified address the typecodes of its receivers). The shape is read through the
+// public conversion API, never through the two predicates under test.
+
+#[derive(Clone, Debug)]
+enum Shape { Sprout, Sapling, P2pkh, P2sh, Tex, Unified(Vec<u32>) }
+impl TryFromAddress for Shape {
+    type Error = ();
+    fn try_from_sprout(_: NetworkType, _: [u8; 64]) -> Result<Self, ConversionError<()>> { Ok(Shape::Sprout) }
+    fn try_from_sapling(_: NetworkType, _: [u8; 43]) -> Result<Self, ConversionError<()>> { Ok(Shape::Sapling) }
+    fn try_from_transparent_p2pkh(_: NetworkType, _: [u8; 20]) -> Result<Self, ConversionError<()>> { Ok(Shape::P2pkh) }
+    fn try_from_transparent_p2sh(_: NetworkType, _: [u8; 20]) -> Result<Self, ConversionError<()>> { Ok(Shape::P2sh) }
+    fn try_from_tex(_: NetworkType, _: [u8; 20]) -> Result<Self, ConversionError<()>> { Ok(Shape::Tex) }
+    fn try_from_unified(_: NetworkType, ua: unified::Address) -> Result<Self, ConversionError<()>> {
+        use zcash_address::unified::Container as _;
+        Ok(Shape::Unified(ua.items_as_parsed().iter().map(|r| match r {
+            Receiver::P2pkh(_) => 0,
+            Receiver::P2sh(_) => 1,
+            Receiver::Sapling(_) => 2,
+            Receiver::Orchard(_) => 3,
+            Receiver::Unknown { typecode, .. } => *typecode,
+        }).collect()))
+    }
+}
+fn shape_of(a: &ZcashAddress) -> Shape { a.clone().convert::<Shape>().expect("every address kind has a shape") }
+fn shape_s(a: &ZcashAddress) -> String {
+    match shape_of(a) {
+        Shape::Sprout => "SSprout".into(), Shape::Sapling => "SSapling".into(), Shape::P2pkh => "SP2pkh".into(),
+        Shape::P2sh => "SP2sh".into(), Shape::Tex => "STex".into(),
+        Shape::Unified(tcs) => format!("(SUnified [{}])", tcs.iter().map(|t| t.to_string()).collect::<Vec<_>>().join("; ")),
+    }
+}
+/// Unified addresses of given receiver shapes (typecodes 0..3 known, others unknown).
+fn unified_of(net: NetworkType, tcs: &[u32], r: &mut Rng) -> ZcashAddress {
+    let items: Vec<Receiver> = tcs.iter().map(|t| match t {
+        0 => Receiver::P2pkh(r.bytes(20).try_into().unwrap()),
+        1 => Receiver::P2sh(r.bytes(20).try_into().unwrap()),
+        2 => Receiver::Sapling(r.bytes(43).try_into().unwrap()),
+        3 => Receiver::Orchard(r.bytes(43).try_into().unwrap()),
+        t => { let n = r.range(16, 40) as usize; Receiver::Unknown { typecode: *t, data: r.bytes(n) } }
+    }).collect();
+    ZcashAddress::from_unified(net, unified::Address::try_from_items(items).expect("valid ZIP 316 composition"))
+}
+const UA_SHAPES: &[&[u32]] = &[&[0, 0x10], &[1, 0x10, 0xfffe], &[0, 2], &[3, 0x10], &[0, 3, 0x7f], &[2, 3], &[1, 4], &[4, 2]];
 
 // ---- printers ---------------------------------------------------------------------------------
 // Byte strings are printed as `(ub len [w; ...]%uint63)`: 7 bytes per primitive-integer literal
@@ -62,7 +108,7 @@ impl Tbl {
     }
     fn wrap(&self, body: String) -> String {
         format!("let c := {} in let t := mk_tbl c {} in {}",
-            list(self.canon.iter().map(|a| format!("({}, {}, {})", s_ub(&a.encode()), boolc(a.can_receive_memo()), boolc(a.is_transparent_only())))),
+            list(self.canon.iter().map(|a| format!("(A {} {})", s_ub(&a.encode()), shape_s(a)))),
             list(self.aliases.iter().map(|(k, i)| format!("({}, {}%nat)", s_ub(k), i))), body)
     }
 }
@@ -191,7 +237,7 @@ fn pay_new(o: &mut Out, a: &ZcashAddress, amount: Option<Zatoshis>, memo: Option
         opt(label.as_ref().map(|s| s_ub(s))), opt(message.as_ref().map(|s| s_ub(s))),
         list(other.iter().map(|(n, v)| pair(s_ub(n), s_ub(v)))), s);
     // only a sample of the accepted constructions is printed (they are all alike)
-    if !matches!(&r, Some(Ok(_))) || o.n % 4 == 0 { o.c("PayNew", t.wrap(body)); }
+    if !matches!(&r, Some(Ok(_))) || o.n % 4 == 0 || a.encode().starts_with('u') { o.c("PayNew", t.wrap(body)); }
     r.and_then(|x| x.ok())
 }
 
@@ -509,6 +555,42 @@ fn long_non_ascii_cases(o: &mut Out, g: &Gen, full: bool) {
     }
 }
 
+/// Zero / non-zero amounts and memos for unified recipients of every receiver shape: Payment::new,
+/// from_uri (lead address, unindexed and indexed parameters, amount before and after the address)
+/// and TransactionRequest::new.
+fn flag_cases(o: &mut Out, special: &[ZcashAddress], r: &mut Rng) {
+    for a in special {
+        let enc = a.encode();
+        for amount in [0u64, 1, 100_000_000] {
+            let z = Zatoshis::from_u64(amount).unwrap();
+            for with_memo in [false, true] {
+                let memo = if with_memo { Some(MemoBytes::from_bytes(&r.bytes(5)).unwrap()) } else { None };
+                if let Some(p) = pay_new(o, a, Some(z), memo.clone(), None, None, vec![]) {
+                    new_case(o, &[p.clone()]);
+                    new_case(o, &[Payment::without_memo(a.clone(), Zatoshis::from_u64(7).unwrap()), p.clone()]);
+                    let rq = TransactionRequest::from_indexed([(0usize, p.clone())].into_iter().collect()).unwrap();
+                    render_case(o, &rq);
+                    let rq = TransactionRequest::from_indexed([(5usize, p)].into_iter().collect()).unwrap();
+                    render_case(o, &rq);
+                }
+                let am = if amount == 0 { "0".to_string() } else if amount == 1 { "0.00000001".to_string() } else { "1".to_string() };
+                let m = if with_memo { "&memo=VGhpcw" } else { "" };
+                from_uri_case(o, &format!("zcash:{enc}?amount={am}{m}"));
+                from_uri_case(o, &format!("zcash:?address={enc}&amount={am}{m}"));
+                from_uri_case(o, &format!("zcash:?amount={am}{m}&address={enc}"));
+                let m3 = if with_memo { "&memo.3=VGhpcw" } else { "" };
+                from_uri_case(o, &format!("zcash:?address.3={enc}&amount.3={am}{m3}"));
+                from_uri_case(o, &format!("zcash:?amount.3={am}&address.3={enc}{m3}"));
+            }
+            // without_memo bypasses Payment::new: new / from_indexed + render must still judge it
+            let p = Payment::without_memo(a.clone(), z);
+            new_case(o, &[p.clone()]);
+            let rq = TransactionRequest::from_indexed([(0usize, p)].into_iter().collect()).unwrap();
+            render_case(o, &rq);
+        }
+    }
+}
+
 fn hand_written() -> Vec<&'static str> {
     vec![
         "zcash:", "zcash:?", "", "zcash", "zcash:??", "zcash:?&", "zcash:#", "zcash:?amount=1",
@@ -550,7 +632,7 @@ fn hand_written() -> Vec<&'static str> {
 
 fn main() {
     let a = args();
-    quiet_panics();
+    if std::env::var_os("C12_LOUD").is_none() { quiet_panics(); }
     let mut r = Rng::new(a.seed, 12);
     let mut o = Out::default();
     let n_req = a.budget(350, 5_000);
@@ -574,7 +656,18 @@ fn main() {
             tries += 1;
         }
     }
+    // unified addresses of every receiver shape that matters for the two predicates, on every network
+    let mut special: Vec<ZcashAddress> = vec![];
+    for net in [NetworkType::Main, NetworkType::Test, NetworkType::Regtest] {
+        let k = if net == NetworkType::Main || a.thorough() || a.search { UA_SHAPES.len() } else { 4 };
+        for tcs in &UA_SHAPES[..k] { let ua = unified_of(net, tcs, &mut r); special.push(ua.clone()); pool.push(ua); }
+    }
+    // the two predicates of the real zcash_address against the model's, for every pooled address
+    for ad in &pool {
+        o.c("AddrFlags", format!("AddrFlags {} {} {}", shape_s(ad), boolc(ad.can_receive_memo()), boolc(ad.is_transparent_only())));
+    }
     let g = Gen { pool, lat: amount_lattice() };
+    flag_cases(&mut o, &special, &mut r);
     let fixed = g.pool.iter().find(|a| a.can_receive_memo() && !a.is_transparent_only()).unwrap().clone();
 
     // --- amounts: exhaustive lattice, random, malformed -------------------------------------------
